@@ -264,6 +264,9 @@ func cmdDirected(quick bool) {
 		rec.Kind = "nan-key"
 		hlib.Emit(rec)
 	}
+	// (3c) struct representations declared in source (tags, unexported fields), decode-only struct probes, characterised observations
+	tn := 0
+	cmdTags(func() string { tn++; return fmt.Sprintf("t%d", tn) })
 	// (4) specification-formatted bytes that are not what the encoder emits must decode to the value they denote (C12, second sentence)
 	specDecode()
 }
